@@ -59,6 +59,9 @@ class Prior(HoloPyObject):
                                   "distribution method prob and/or lnprob.")
 
     def __add__(self, value):
+        if isinstance(value, np.ndarray) and value.ndim == 0:
+            # one number (what a reduction's .values is), not a sequence
+            value = value.item()
         if isinstance(value, (Number, Prior)):
             if value == 0:
                 return self
@@ -71,6 +74,8 @@ class Prior(HoloPyObject):
                 "Cannot add prior to objects of type {}".format(type(value)))
 
     def __mul__(self, value):
+        if isinstance(value, np.ndarray) and value.ndim == 0:
+            value = value.item()
         if isinstance(value, (Real, Prior)):
             if value == 0:
                 raise TypeError("Cannot multiply a prior by 0")
@@ -121,10 +126,13 @@ class Prior(HoloPyObject):
     def __array_ufunc__(self, ufunc, method, *args, name=None, **kwargs):
         if method == "__call__" and len(kwargs) == 0:
             if ufunc in _ARITHMETIC_UFUNCS and name is None and not any(
-                    isinstance(arg, np.ndarray) for arg in args):
-                # NumPy scalars dispatch here instead of to __rmul__ etc.;
-                # the operators know about adding 0 and multiplying by 0 or 1
-                args = [arg.item() if isinstance(arg, np.generic) else arg
+                    isinstance(arg, np.ndarray) and arg.ndim > 0
+                    for arg in args):
+                # NumPy scalars (and 0-d arrays) dispatch here instead of to
+                # __rmul__ etc.; the operators know about adding 0 and
+                # multiplying by 0 or 1
+                args = [arg.item()
+                        if isinstance(arg, (np.generic, np.ndarray)) else arg
                         for arg in args]
                 return _ARITHMETIC_UFUNCS[ufunc](*args)
             if not all(isinstance(arg, (Number, Prior, np.ndarray, list, tuple))
